@@ -175,7 +175,7 @@ const (
 )
 
 // readData read column length and then data from reader
-func (column *ColumnData) readData(reader io.Reader, format base.BoundValueFormat) error {
+func (column *ColumnData) readData(reader *bytes.Reader, format base.BoundValueFormat) error {
 	length := column.Length()
 	if int32(length) == NullColumnValue {
 		column.data = nil
@@ -186,6 +186,10 @@ func (column *ColumnData) readData(reader io.Reader, format base.BoundValueForma
 	if length == 0 {
 		column.data = nil
 		return nil
+	}
+	if length > reader.Len() {
+		// the column declares more bytes than the packet holds
+		return ErrPacketTruncated
 	}
 	data := make([]byte, length)
 
@@ -216,6 +220,10 @@ func (column *ColumnData) SetDataLength(length uint32) {
 
 // parseColumns split whole data row packet into separate columns data
 func (packet *PacketHandler) parseColumns(columnFormats []uint16) error {
+	if packet.descriptionBuf.Len() < 2 {
+		// no room for the column count
+		return ErrPacketTruncated
+	}
 	packet.columnCount = int(binary.BigEndian.Uint16(packet.descriptionBuf.Bytes()[:2]))
 
 	if packet.columnCount == 0 {
@@ -471,6 +479,10 @@ func (packet *PacketHandler) readData(readLength bool) error {
 		if err := packet.readDataLength(); err != nil {
 			return err
 		}
+	}
+	if packet.dataLength < 0 {
+		// the length field counts itself (and the tag of start-up packets): a smaller value is not a packet
+		return ErrPacketTruncated
 	}
 	packet.descriptionBuf.Grow(packet.dataLength)
 	packet.logger.Debugln("Read data")
